@@ -7,6 +7,7 @@ import PygProofs.Lemmas.TableNodup
 import PygModel.TableSpec
 
 namespace Pyg
+namespace Abs   -- generic helpers, kept in their own namespace to avoid clashes between merged lemma files
 
 theorem zipWith_map_range {α β} (f : α → Cell → β) (g : Nat → α) (v : List Cell) :
     List.zipWith f ((List.range v.length).map g) v
@@ -37,6 +38,9 @@ theorem pyIdx_lt {n : Nat} {i : Int} {j : Nat} (h : pyIdx n i = some j) : j < n 
   · split at h
     · cases h; omega
     · cases h
+
+end Abs
+open Abs
 
 namespace Table
 
